@@ -9,7 +9,8 @@ tuple of fan-outs and leaf lengths, keys abstracted), .keys (chain order),
 
 class Walk(object):
     __slots__ = ("problems", "shape", "keys", "items", "leaves", "height",
-                 "nodes", "interior", "descent_leaves", "embedded")
+                 "nodes", "interior", "descent_leaves", "embedded",
+                 "subtree_firsts")
 
     def __init__(self):
         self.problems = []
@@ -22,6 +23,8 @@ class Walk(object):
         self.nodes = 0
         self.interior = []
         self.embedded = False
+        self.subtree_firsts = set()   # id(leaf): first leaf of a non-leftmost
+                                      # interior node
 
 
 def _leaf_state(state, mapping):
@@ -112,6 +115,8 @@ def walk(tree, dom, mapping, max_leaf=None, max_internal=None):
                         pass
                     sh, fl = visit(c, cst, clo, chi, depth + 1, False)
                     shapes.append(sh)
+                    if i > 0 and fl is not None:
+                        w.subtree_firsts.add(id(fl))
                     if c._firstbucket is not fl:
                         w.problems.append("firstbucket-mismatch")
             else:
@@ -211,3 +216,46 @@ def descent_path(tree, key, dom):
             node = c
         else:
             return path
+
+
+def transitions(old, new):
+    """classify the structural change between two walks of the same tree
+    (leaf identity based); returns a list of short probe names"""
+    out = []
+    if old is None:
+        return out
+    if new.height > old.height:
+        out.append("height+")
+    elif new.height < old.height:
+        out.append("height-")
+    oldids = [id(b) for b in old.leaves]
+    newids = [id(b) for b in new.leaves]
+    ns = set(newids)
+    os_ = set(oldids)
+    if oldids and not newids:
+        out.append("tree-emptied")
+    added = [i for i in newids if i not in os_]
+    removed = [i for i in oldids if i not in ns]
+    if added and oldids:
+        out.append("leaf-split")
+    for r in removed:
+        if not newids:
+            break
+        if r == oldids[0]:
+            out.append("unlink-first-leaf")
+        elif r == oldids[-1]:
+            out.append("unlink-last-leaf")
+        else:
+            out.append("unlink-middle-leaf")
+        if r in old.subtree_firsts:
+            out.append("unlink-across-subtrees")
+    if len(new.interior) > len(old.interior):
+        out.append("interior-added")
+    elif len(new.interior) < len(old.interior):
+        out.append("interior-removed")
+    if len(new.interior) > 1 and isinstance(new.shape, tuple) and \
+            len(new.shape) == 1:
+        out.append("root-single-child")
+    if old.embedded != new.embedded:
+        out.append("embedded-toggle")
+    return out
